@@ -39,8 +39,79 @@ def long_lived(cls, *args, **kw):
     return obj
 
 
+def _install_trace():
+    """T3 (tools/lib/fingerprints.py): `reach` = which pycardano functions the cases call; `lines` = which lines of the
+    CHANGED functions they execute.  Only code of the repository under test is looked at."""
+    sp = os.environ.get('VERIF_TRACE')
+    if not sp or not os.path.exists(sp):
+        return None
+    spec = json.load(open(sp))
+    real = {}
+
+    def rp(fn):
+        r = real.get(fn)
+        if r is None:
+            r = real[fn] = os.path.realpath(fn)
+        return r
+    if spec['mode'] == 'reach':
+        root = os.path.join(spec['root'], 'pycardano') + os.sep
+        seen = {}
+
+        def prof(frame, event, arg):
+            if event == 'call':
+                co = frame.f_code
+                fn = rp(co.co_filename)
+                if fn.startswith(root):
+                    seen.setdefault(fn, set()).add(co.co_qualname)
+        sys.setprofile(prof)
+        return ('reach', seen, spec)
+    funcs = {f: [tuple(r) for r in rs] for f, rs in spec['funcs'].items()}
+    hits = {}
+
+    def local(frame, event, arg):
+        if event == 'line':
+            d = hits.setdefault(rp(frame.f_code.co_filename), {})
+            d[frame.f_lineno] = d.get(frame.f_lineno, 0) + 1
+        return local
+
+    def glob_(frame, event, arg):
+        co = frame.f_code
+        rs = funcs.get(rp(co.co_filename))
+        if rs is None:
+            return None
+        ln = co.co_firstlineno
+        for lo, hi in rs:
+            if lo <= ln <= hi:
+                return local
+        return None
+    sys.settrace(glob_)
+    return ('lines', hits, spec)
+
+
+def _finish_trace(st):
+    if st is None:
+        return
+    mode, data, spec = st
+    sys.settrace(None); sys.setprofile(None)
+    out = {'lines': {}, 'reach': {}}
+    if mode == 'reach':
+        out['reach'] = {f: sorted(q) for f, q in data.items()}
+    else:
+        out['lines'] = {f: {str(k): v for k, v in d.items()} for f, d in data.items()}
+    with open(os.path.join(spec['out'], f'hits_{os.getpid()}.json'), 'w') as f:
+        json.dump(out, f)
+
+
 def main(handler):
     payload = json.loads(sys.stdin.read())
+    _tr = _install_trace()
+    try:
+        _main(handler, payload)
+    finally:
+        _finish_trace(_tr)
+
+
+def _main(handler, payload):
     results = []
     for c in payload['cases']:
         try:
